@@ -36,33 +36,63 @@ def dict_attrs_of_init(m, cname):
     return out
 
 
-def table_uses(m, classes, attr):
-    """(FuncInfo, node, key names) for stores into self.<attr>[...]... and
-    mutating method calls on it, in the given classes."""
-    uses = []
-    for cname in classes:
-        c = m.cls(cname)
-        for f in c.methods.values():
-            if f.name == '__init__':
-                continue
-            for n in m._walk_own(f.node):
+_USES_CACHE = {}
+
+
+def _class_events(m, cname):
+    """[(FuncInfo, Run, Event, expanded target/receiver ast, value names)]
+    for every store / mutating call in the methods of cname"""
+    if (id(m), cname) in _USES_CACHE:
+        return _USES_CACHE[(id(m), cname)]
+    out = []
+    c = m.cls(cname)
+    for f in c.methods.values():
+        if f.name == '__init__':
+            continue
+        try:
+            run = run_function(f, m, max_iter=1, max_paths=50000)
+        except AnalysisError:
+            continue
+        seen = set()
+        for p in run.paths:
+            for e in p.events:
                 tgt = None
-                if isinstance(n, ast.Assign):
-                    for t in n.targets:
-                        if isinstance(t, ast.Subscript) and \
-                                base_path(t) == 'self.' + attr:
-                            tgt = t
-                elif isinstance(n, ast.Call) and \
-                        isinstance(n.func, ast.Attribute) and \
-                        n.func.attr in ('append', 'add', 'setdefault',
-                                        'update') and \
-                        base_path(n.func.value) == 'self.' + attr:
-                    tgt = n
+                if e.kind == 'store' and isinstance(e.expr, ast.Subscript):
+                    tgt = run.expand(e.expr)
+                elif e.kind == 'call' and e.callee() in (
+                        'append', 'add', 'setdefault', 'update') and \
+                        isinstance(e.expr.func, ast.Attribute):
+                    tgt = run.expand(e.expr)
                 if tgt is None:
                     continue
-                names = {x.id for x in ast.walk(tgt)
-                         if isinstance(x, ast.Name)}
-                uses.append((f, n, names))
+                key = (e.lineno, U(tgt))
+                if key in seen:
+                    continue
+                seen.add(key)
+                out.append((f, e, tgt))
+    _USES_CACHE[(id(m), cname)] = out
+    return out
+
+
+def table_uses(m, classes, attr):
+    """(FuncInfo, node, names) for stores into self.<attr>[...]... and
+    mutating method calls on it, in the given classes - read off the
+    enumerated paths with locals expanded, so that an alias such as
+    `ns_rooms = self.rooms.setdefault(namespace, {})` is seen through."""
+    uses = []
+    for cname in classes:
+        for f, e, tgt in _class_events(m, cname):
+            if base_path(tgt) != 'self.' + attr and not (
+                    isinstance(tgt, ast.Call) and
+                    base_path(tgt.func.value) == 'self.' + attr):
+                # alias of a setdefault()/get() result of the table
+                t = U(tgt)
+                if not t.startswith('self.%s.setdefault(' % attr) and \
+                        not t.startswith('self.%s[' % attr):
+                    continue
+            names = {x.id.split('\xa7')[0] for x in ast.walk(tgt)
+                     if isinstance(x, ast.Name)}
+            uses.append((f, e.node, names))
     return uses
 
 
